@@ -333,14 +333,14 @@ fn skip_sep(b: &[u8], mut i: usize) -> Option<usize> {
     (i > start).then_some(i)
 }
 
-/// Decimal field: at most 12 characters, a value that fits `u32`. The flag says
+/// Decimal field: at most 80 characters (leading zeros), a value that fits `u32`. The flag says
 /// whether it carries leading zeros.
 fn field(b: &[u8], i: usize) -> Option<(u32, usize, bool)> {
     let mut j = i;
     while j < b.len() && b[j].is_ascii_digit() {
         j += 1;
     }
-    if j == i || j - i > 12 {
+    if j == i || j - i > 80 {
         return None;
     }
     let mut k = i;
@@ -427,7 +427,7 @@ pub fn ref_pnm(b: &[u8]) -> RefPnm {
                 while k + 1 < i && raster[k] == b'0' {
                     k += 1;
                 }
-                if i == s || i - s > 12 || i - k > 3 {
+                if i == s || i - s > 80 || i - k > 3 {
                     return Unsure("text raster token is not a short decimal");
                 }
                 if k > s {
